@@ -1,5 +1,6 @@
 import OnetVerif.Model.C17Table
 import OnetVerif.Model.C17Accept
+import OnetVerif.Model.C17Tls
 /-! Model for property C17 — line-protocol front end.  The table, the identities and the sequential
 router are in `Model/C17Table.lean`, the accept path as a transition system in `Model/C17Accept.lean`. -/
 namespace C17
@@ -68,7 +69,8 @@ def showObs : Obs → String
   | .noConn => "noconn"
 
 /--
-* `open <tcp|local>` — a fresh filtering server on that transport (the model does not depend on it)
+* `open <tcp|local|tls>` — a fresh filtering server on that transport (the model does not depend on it)
+* `offercert <signer> <cn> <uri|-> <signed name> <ident> <m>` — TLS only, see `Model/C17Tls.lean`
 * `set <setid> <idents>` / `get <setid>`
 * `offer <ident> <m>` — a fresh connection by a peer with that key and that `ID` field, then message m
 * `msg <key> <m>` — message m over the existing connection of that peer
@@ -101,7 +103,17 @@ def stepCore (s : State) (toks : List String) : State × String :=
     | none => (s, "bad-op")
     | some op => let r := C17.step s.st op; ({ s with st := r.1 }, showObs r.2)
   match toks with
-  | ["open", tr] => if tr = "tcp" || tr = "local" then (init, "ok") else (s, "bad-op")
+  | ["open", tr] => if tr = "tcp" || tr = "local" || tr = "tls" then (init, "ok") else (s, "bad-op")
+  | ["offercert", sg, cn, uri, nm, p, m] =>
+    -- a connection offered to a TLS listener by a peer the harness builds from crypto/tls: the private key it
+    -- holds (`sg`), the keys its certificate names in the CommonName / the URI, the name under its signature,
+    -- the identity message it sends, one message; the peer leaves afterwards (nothing stays in the table)
+    match sg.toNat?, cn.toNat?, (if uri = "-" then some none else uri.toNat?.map some), nm.toNat?, parseIdent p, m.toNat? with
+    | some sg, some cn, some uri, some nm, some p, some m =>
+      (s, match Tls.offer false s.st.vp { cn := cn, uri := uri, signer := sg, signedName := nm } p with
+        | .dispatched => s!"dispatched:{p.key}:{m}"
+        | _ => "refused")
+    | _, _, _, _, _, _ => (s, "bad-op")
   | ["sethold", id, ps] =>
     match s.pending, parseSetId id, parseIdents ps with
     | none, some id, some ps => ({ s with pending := some (id, ps) }, "held")
